@@ -6,7 +6,7 @@ set_option linter.unusedVariables false
 namespace EupsModel.Record
 
 macro "canon_simp" "[" facts:Lean.Parser.Tactic.simpLemma,* "]" : tactic =>
-  `(tactic| simp [declaredProd, DirPl.at, TabPl.at, canonInfo, tableName, absP, Path.rel, Path.subpath, Path.under,
+  `(tactic| simp [declaredProd, DirPl.at, TabPl.at, canonInfo, canonDir, canonTab, tableName, absP, Path.rel, Path.subpath, Path.under,
         isPrefixOf_append_self, PVal.truthy, addFlavorPaths, trimInfo, orderNew, trimKey, PInfo.getK, PInfo.setK,
         PVal.asPath, Path.join, Path.dirname, Path.basename, Except.map, $facts,*])
 
@@ -118,7 +118,7 @@ theorem canon_spec (ex : Path → Bool) (root : List Str) (name version flavor :
       canon_simp [hsr, hex, sNone]
 
 macro "resolve_simp" "[" facts:Lean.Parser.Tactic.simpLemma,* "]" : tactic =>
-  `(tactic| simp [resolveInfo, resolvePaths, Prod.init, canonInfo, DirPl.at, TabPl.at, tableName, absP, Path.rel,
+  `(tactic| simp [resolveInfo, resolvePaths, Prod.init, canonInfo, canonDir, canonTab, DirPl.at, TabPl.at, tableName, absP, Path.rel,
         PVal.truthy, PVal.isReal, Path.join, Except.map, $facts,*])
 
 theorem resolve_spec (ex' : Path → Bool) (root root' : List Str) (name version flavor : Str) (d : DirPl) (t : TabPl)
